@@ -73,6 +73,26 @@ def two_adult_units(year, w, w_sib, rent, kids=1):
         r.update(bruttokaltmiete_m_hh=rent, wohnfläche_hh=85.0, heizkosten_m_hh=90.0)
     return rows
 
+def retired_parent(year, ep, unterhalt, rent, partner=None, w_partner=0.0, kids=(9, 15), priv=0.0):
+    """A pensioner who lives with dependent children: alone, with a retired partner, or with a partner of working age."""
+    a = dict(ges_pflegev_hat_kinder=True, priv_rente_m=priv)
+    if partner:
+        a.update(p_id_einstandspartner=11, p_id_ehepartner=11, gemeinsam_veranlagt=True)
+    else:
+        a.update(alleinerz=True, steuerklasse=2)
+    rows = [retiree(10, 1, 68, year, ep, **a)]
+    if partner == "retired":
+        rows.append(retiree(11, 1, 67, year, 8.0, weiblich=True, ges_pflegev_hat_kinder=True, p_id_einstandspartner=10, p_id_ehepartner=10, gemeinsam_veranlagt=True))
+    elif partner == "working":
+        rows.append(worker(11, 1, 45, year, w_partner, weiblich=True, ges_pflegev_hat_kinder=True, p_id_einstandspartner=10, p_id_ehepartner=10,
+                           gemeinsam_veranlagt=True))
+    for j, age in enumerate(kids):
+        rows.append(person(20 + j, 1, age, year, p_id_elternteil_1=10, p_id_elternteil_2=11 if partner else -1, p_id_kindergeld_empf=10,
+                           kind_unterh_anspr_m=0.0 if partner else 350.0, kind_unterh_erhalt_m=0.0 if partner else unterhalt, in_ausbildung=age >= 6))
+    for r in rows:
+        r.update(bruttokaltmiete_m_hh=rent, wohnfläche_hh=75.0, heizkosten_m_hh=85.0)
+    return rows
+
 
 def scenarios(year, fine):
     ws = W_FINE if fine else W
@@ -95,6 +115,15 @@ def scenarios(year, fine):
     sib = [0.0, 450.0, 800.0, 1000.0, 1100.0, 1250.0, 1500.0, 2200.0] if not fine else [float(x) for x in range(0, 2601, 200)]
     for w, ws_, rent, kids in itertools.product(W if fine else ws, sib, [500.0, 750.0, 1100.0], [1, 2]):
         yield ("two-adult-units", dict(w=w, w_sibling=ws_, rent=rent, kids=kids)), two_adult_units(year, w, ws_, rent, kids)
+
+
+    eps = [0.0, 5.0, 10.0, 15.0, 20.0, 25.0, 30.0, 40.0, 55.0] if not fine else [float(x) for x in range(0, 61, 3)]
+    for ep, unterhalt, rent, kids in itertools.product(eps, [0.0, 150.0, 350.0, 700.0], rents, [(9,), (9, 15)]):
+        yield ("retired-single-parent", dict(ep=ep, unterhalt=unterhalt, rent=rent, kids=len(kids))), retired_parent(year, ep, unterhalt, rent, kids=kids)
+    for ep, priv, rent in itertools.product(eps, [0.0, 400.0], rents):
+        yield ("retired-couple-with-child", dict(ep=ep, priv=priv, rent=rent)), retired_parent(year, ep, 0.0, rent, partner="retired", kids=(12,), priv=priv)
+    for ep, w in itertools.product(eps[::2], ws):
+        yield ("pensioner-working-partner-child", dict(ep=ep, w=w)), retired_parent(year, ep, 0.0, 700.0, partner="working", w_partner=w, kids=(4, 12))
 
 
 COLS = ["arbeitsl_geld_2_m_bg", "wohngeld_m_wthh", "kinderzuschl_m_bg", "grunds_im_alter_m_eg"]
@@ -182,7 +211,7 @@ def run(tier):
     if not need <= regimes or not kiz:
         print("harness error: the sweep does not visit all benefit regimes", sorted(regimes))
         return 2
-    rep.bound = {"dates": dates, "wage_grid": W_FINE if thorough else W, "scenarios": ["fam", "fam-unmarried", "fam-retired", "single", "single-parent",
+    rep.bound = {"dates": dates, "wage_grid": W_FINE if thorough else W, "scenarios": ["retired-single-parent", "retired-couple-with-child", "pensioner-working-partner-child", "fam", "fam-unmarried", "fam-retired", "single", "single-parent",
                  "single-parent-unterhalt", "pensioner", "mixed", "two-adult-units"]}
     rep.assumptions = ["a person 'receives' a group-level benefit if the group-level column is positive in that person's row"]
     return rep.finish(
